@@ -11,6 +11,11 @@ OPS = {
     "t2.normalize": {}, "t2.with_maximum": {}, "t2.with_minimum": {}, "t2.clamp": {},
     "t2.unpack": {"res": True}, "t2.padding_width": {}, "t2.extra_width": {},
     "t2.span_split": {}, "t2.span_move": {}, "t2.span_right_crop": {},
+    "t2.get_ansi_codes": {"res": True}, "t2.position_cursor": {}, "t2.restore_cursor": {},
+    "t2.adjust_line_length": {"res": True}, "t2.cell_length": {},
+    "t2.task_remaining": {}, "t2.task_elapsed": {}, "t2.task_finished": {}, "t2.task_percentage": {"res": True},
+    "t2.task_time_remaining": {"res": True}, "t2.style_add": {"res": True},
+    "t2.bar_console": {"res": True}, "t2.pbar_console": {"res": True},
 }
 
 ASCII = "abcXYZ 09-_"
@@ -103,7 +108,133 @@ def generate(rng, tier):
             for off in range(-2, 6):
                 for op in ("t2.span_split", "t2.span_move", "t2.span_right_crop"):
                     cases.append((op, [[a, b, 7], off]))
+    # ---- Color.get_ansi_codes: every type x number/triplet presence x foreground
+    for ty in range(0, 5):
+        for num in ([], [0], [1], [7], [8], [15], [16], [255]):
+            for trip in ([], [[1, 2, 3]], [[255, 0, 128]]):
+                for fg in (0, 1):
+                    cases.append(("t2.get_ansi_codes", [ty, num, trip, fg]))
+    for _ in range(100 * k):
+        cases.append(("t2.get_ansi_codes", [rng.randint(0, 4), [rng.randint(0, 300)],
+                                            [[rng.randint(0, 255) for _ in range(3)]], rng.randint(0, 1)]))
+    # ---- LiveRender cursor strings: no shape, heights around 0
+    for op in ("t2.position_cursor", "t2.restore_cursor"):
+        cases.append((op, []))
+        for h in range(-2, 12):
+            cases.append((op, [[rng.randint(0, 80), h]]))
+    # ---- Segment.adjust_line_length
+    for _ in range(700 * k):
+        line = []
+        for _ in range(rng.choice([0, 1, 2, 3, 4])):
+            line.append([s2t(rstr(rng, 8)), [] if rng.random() < 0.3 else [rng.randint(1, 4)],
+                         1 if rng.random() < 0.12 else 0])
+        n = rng.choice([0, 1, 2, 3, rng.randint(0, 12), rng.randint(0, 40), rng.randint(-2, 0)])
+        cases.append(("t2.adjust_line_length", [line, n, [] if rng.random() < 0.4 else [rng.randint(5, 6)], rng.randint(0, 1)]))
+        if line:
+            cases.append(("t2.cell_length", line[0]))
+    # ---- Task derived values (numbers as [num, den]; ints and dyadic values, for which float arithmetic
+    #      is exact or recoverable by limit_denominator)
+    def q(lo, hi):
+        return rng.choice([[rng.randint(lo, hi), 1], [rng.randint(lo, hi), 1], [rng.randint(lo * 4, hi * 4), rng.choice([2, 4, 8])]])
+    for total in range(0, 6):
+        for comp in range(-1, 8):
+            cases.append(("t2.task_percentage", [[total, 1], [comp, 1]]))
+            cases.append(("t2.task_remaining", [[total, 1], [comp, 1]]))
+    for _ in range(200 * k):
+        cases.append(("t2.task_percentage", [q(0, 1000), q(-5, 1200)]))
+        cases.append(("t2.task_remaining", [q(0, 1000), q(-5, 1200)]))
+        cases.append(("t2.task_elapsed", [q(0, 500), rng.choice([[], [q(0, 300)]]), rng.choice([[], [q(0, 500)]])]))
+        cases.append(("t2.task_finished", rng.choice([[], [q(0, 9)]])))
+        sp = rng.choice([[], [[[rng.randint(0, 40), 1], [rng.choice([0, 1, 2, 4, 5, 8, 10]), 1]]],
+                         [[[rng.randint(1, 40), 1], [rng.choice([1, 2, 4, 8]), 1]]]])
+        cases.append(("t2.task_time_remaining", [rng.randint(0, 1) if rng.random() < 0.3 else 0, sp,
+                                                 [rng.randint(0, 500), 1], [rng.randint(0, 500), 1]]))
+    # ---- Style.__add__: colours as tokens, 13-bit attribute words, link / link_id / null combinations
+    def rsty():
+        word = lambda: rng.choice([0, 1, rng.randint(0, 8191), 8191])
+        return [rng.choice([[], [rng.randint(1, 4)]]), rng.choice([[], [rng.randint(1, 4)]]), word(), word(),
+                rng.choice([[], [[]], [s2t("http://x")]]), rng.choice([[], s2t("123")]), 1 if rng.random() < 0.2 else 0]
+    for _ in range(600 * k):
+        cases.append(("t2.style_add", [rsty(), rng.choice([[], [rsty()], [rsty()]])]))
+    # ---- Bar.__rich_console__: exhaustive small domain + random
+    for size in range(0, 5):
+        for b in range(-1, 5):
+            for e in range(-1, 6):
+                for W in (0, 1, 3, 8):
+                    cases.append(("t2.bar_console", [[], b, e, size, [1], W]))
+    for _ in range(500 * k):
+        size = rng.choice([1, 2, 7, 10, 100, rng.randint(1, 1000)])
+        b = rng.randint(-2, size + 2)
+        e = rng.randint(-2, size + 3)
+        cases.append(("t2.bar_console", [rng.choice([[], [0], [5], [30], [rng.randint(1, 60)]]), b, e, size, [1],
+                                         rng.choice([0, 1, 2, 10, 40, rng.randint(0, 120)])]))
+    # ---- ProgressBar.__rich_console__ (non-pulse path): exhaustive small domain + random
+    for total in range(0, 5):
+        for comp in range(-1, 6):
+            for W in (0, 1, 2, 5):
+                for flags in ((0, 0, 0, 1), (1, 0, 0, 1), (0, 0, 1, 1), (0, 0, 0, 0), (0, 1, 0, 1)):
+                    cases.append(("t2.pbar_console", [[], total, comp, W] + list(flags)))
+    for _ in range(500 * k):
+        total = rng.choice([0, 1, 3, 10, 100, rng.randint(1, 1000)])
+        cases.append(("t2.pbar_console", [rng.choice([[], [0], [7], [40]]), total, rng.randint(-3, total + 5),
+                                          rng.choice([0, 1, 2, 9, 40, rng.randint(0, 100)]), rng.randint(0, 1),
+                                          rng.randint(0, 1), rng.randint(0, 1), rng.randint(0, 1)]))
     return cases
+
+
+def _mksty(t):
+    from rich.style import Style
+    from rich.color import Color
+    s = Style.__new__(Style)
+    s._ansi = s._style_definition = s._hash = None
+    s._color = Color.parse("color(%d)" % t[0][0]) if t[0] else None
+    s._bgcolor = Color.parse("color(%d)" % t[1][0]) if t[1] else None
+    s._attributes, s._set_attributes = t[2], t[3]
+    s._link = t2s(t[4][0]) if t[4] else None
+    s._link_id = t2s(t[5])
+    s._null = bool(t[6])
+    return s
+
+
+def _usty(s):
+    return [[s._color.number] if s._color else [], [s._bgcolor.number] if s._bgcolor else [], s._attributes,
+            s._set_attributes, [] if s._link is None else [s2t(s._link)], s2t(s._link_id), 1 if s._null else 0]
+
+
+def _num(p):
+    return p[0] if p[1] == 1 else p[0] / p[1]
+
+
+def _uq(x):
+    from fractions import Fraction
+    f = Fraction(x).limit_denominator(10 ** 6)
+    return [f.numerator, f.denominator]
+
+
+def _task(total, completed, now=0):
+    from rich.progress import Task
+    return Task(0, "", total, completed, _get_time=lambda: now)
+
+
+_styles = {}
+
+
+def _style(opt):
+    from rich.style import Style
+    if not opt:
+        return None
+    if opt[0] not in _styles:
+        _styles[opt[0]] = Style.parse("color(%d)" % opt[0])
+    return _styles[opt[0]]
+
+
+def _seg(t):
+    from rich.segment import Segment
+    return Segment(t2s(t[0]), _style(t[1]), bool(t[2]))
+
+
+def _useg(g):
+    return [s2t(g.text), [] if g.style is None else [g.style.color.number], 1 if g.is_control else 0]
 
 
 def _span(t):
@@ -156,6 +287,65 @@ def impl(op, arg):
         for i in range(arg[2]):
             t.add_column(str(i))
         return t._extra_width
+    if op == "t2.get_ansi_codes":
+        from rich.color import Color, ColorType
+        from rich.color_triplet import ColorTriplet
+        c = Color("x", ColorType(arg[0]), arg[1][0] if arg[1] else None, ColorTriplet(*arg[2][0]) if arg[2] else None)
+        return [s2t(x) for x in Color.get_ansi_codes.__wrapped__(c, bool(arg[3]))]
+    if op in ("t2.position_cursor", "t2.restore_cursor"):
+        from rich.live_render import LiveRender
+        lr = LiveRender("")
+        lr._shape = tuple(arg[0]) if arg else None
+        return s2t(str(lr.position_cursor() if op == "t2.position_cursor" else lr.restore_cursor()))
+    if op == "t2.adjust_line_length":
+        from rich.segment import Segment
+        line, n, style, pad = arg
+        return [_useg(g) for g in Segment.adjust_line_length([_seg(t) for t in line], n, style=_style(style), pad=bool(pad))]
+    if op == "t2.cell_length":
+        return _seg(arg).cell_length
+    if op == "t2.bar_console":
+        import types
+        from rich.bar import Bar
+        bar = Bar(arg[3], arg[1], arg[2], width=arg[0][0] if arg[0] else None)
+        segs = list(bar.__rich_console__(None, types.SimpleNamespace(max_width=arg[5])))
+        return [[s2t(g.text), [1] if g.style is not None else [], 1 if g.is_control else 0] for g in segs]
+    if op == "t2.pbar_console":
+        import types
+        from rich.progress_bar import ProgressBar
+        w, total, comp, W, lw, ao, nc, hc = arg
+        pb = ProgressBar(total, comp, w[0] if w else None, False, 1, 2, 3)
+        console = types.SimpleNamespace(get_style=lambda s: s, no_color=bool(nc), color_system="x" if hc else None)
+        options = types.SimpleNamespace(max_width=W, legacy_windows=bool(lw), ascii_only=bool(ao))
+        return [[s2t(g.text), [] if g.style is None else [g.style], 1 if g.is_control else 0]
+                for g in pb.__rich_console__(console, options)]
+    if op == "t2.style_add":
+        return _usty(_mksty(arg[0]) + (_mksty(arg[1][0]) if arg[1] else None))
+    if op == "t2.task_remaining":
+        return _uq(_task(_num(arg[0]), _num(arg[1])).remaining)
+    if op == "t2.task_percentage":
+        return _uq(_task(_num(arg[0]), _num(arg[1])).percentage)
+    if op == "t2.task_elapsed":
+        t = _task(10, 0, _num(arg[0]))
+        t.start_time = _num(arg[1][0]) if arg[1] else None
+        t.stop_time = _num(arg[2][0]) if arg[2] else None
+        e = t.elapsed
+        return [] if e is None else [_uq(e)]
+    if op == "t2.task_finished":
+        t = _task(10, 0)
+        t.finished_time = _num(arg[0]) if arg else None
+        return 1 if t.finished else 0
+    if op == "t2.task_time_remaining":
+        from rich.progress import ProgressSample
+        t = _task(_num(arg[2]), _num(arg[3]))
+        t.start_time = 0.0
+        if arg[0]:
+            t.finished_time = 1.0
+        if arg[1]:
+            c, d = arg[1][0]
+            t._progress.append(ProgressSample(0.0, 0))
+            t._progress.append(ProgressSample(float(_num(d)), _num(c)))
+        r = t.time_remaining
+        return [] if r is None else [_uq(r)]
     if op == "t2.span_split":
         a, b = _span(arg[0]).split(arg[1])
         return [_uspan(a), [] if b is None else [_uspan(b)]]
